@@ -13,6 +13,7 @@ import (
 	_ "verif/htlab/internal/props/c10"
 	_ "verif/htlab/internal/props/c11"
 	_ "verif/htlab/internal/props/c12"
+	_ "verif/htlab/internal/props/c13"
 	_ "verif/htlab/internal/props/c17"
 	_ "verif/htlab/internal/props/c19"
 )
